@@ -33,6 +33,35 @@ pub enum Case {
     Arbitrary { old: String, new: String, priors: Vec<PriorSpec>, author: u8 },
 }
 
+const FUZZ_ALPHABET: &[&str] = &[
+    "a", "b", "c", " ", "\n", "\n", "x = 1;", "\r\n", "🙂", "é", "e\u{301}", "日本", "\t", "    ", "\u{2028}", "\r",
+    "same line\n", "fn k(", ")", "{", "}", "\n\n", "  ", "k1", "k2", "+", "-", "@@", "0", "//", "\u{feff}", "Z",
+];
+
+/// Byte-level decoding for the coverage-guided target: two texts over a small
+/// alphabet of pieces (one byte each; the split point, the reporting author and
+/// up to 6 priors come from the header bytes).
+pub fn case_from_bytes(data: &[u8]) -> Option<Case> {
+    if data.len() < 4 {
+        return None;
+    }
+    let n_priors = (data[0] % 7) as usize;
+    let author = data[1];
+    let header = 4 + n_priors * 4;
+    if data.len() < header {
+        return None;
+    }
+    let mut priors = Vec::new();
+    for i in 0..n_priors {
+        let b = &data[4 + i * 4..8 + i * 4];
+        priors.push(PriorSpec { start: b[0] as u16 | (((b[3] >> 6) as u16) << 8), len: b[1] as u16 % 48, author: b[2] % 4, ts: b[3] % 4 });
+    }
+    let body = &data[header..];
+    let split = if body.is_empty() { 0 } else { (u16::from_le_bytes([data[2], data[3]]) as usize * (body.len() + 1)) >> 16 };
+    let txt = |b: &[u8]| b.iter().map(|x| FUZZ_ALPHABET[*x as usize % FUZZ_ALPHABET.len()]).collect::<String>();
+    Some(Case::Arbitrary { old: txt(&body[..split]), new: txt(&body[split..]), priors, author })
+}
+
 fn author_id(a: Actor) -> String {
     match a {
         Actor::Human => "human".to_string(),
@@ -161,6 +190,9 @@ fn run_pipeline(rep: &mut CaseReport, specs: &[LineSpec], crlf: bool, final_newl
     let mut ts: u128 = 1_000;
     let mut multibyte_near_edit = false;
     let mut authors = std::collections::BTreeSet::new();
+    // lines whose verdict was seen to depend on a zero-length deletion marker (F14b): once the
+    // next pass has dropped the marker their author is whatever lies underneath
+    let mut marker_dependent: std::collections::BTreeSet<String> = std::collections::BTreeSet::new();
     for (si, (who, edit)) in steps.iter().enumerate() {
         ts += 10;
         let eff = apply_edit(&mut fs, &mut model, *who, edit);
@@ -184,6 +216,11 @@ fn run_pipeline(rep: &mut CaseReport, specs: &[LineSpec], crlf: bool, final_newl
             }
             Ok(x) => x,
         };
+        if std::env::var("GAIV_C16_DUMP").is_ok() {
+            eprintln!("step {si} by {me}\n old {:?}\n new {:?}\n priors {:?}\n out {:?}", content, new_content,
+                filled.iter().map(|x| (x.start, x.end, x.author_id.chars().take(3).collect::<String>(), x.ts)).collect::<Vec<_>>(),
+                upd.as_ref().map(|u| u.iter().map(|x| (x.start, x.end, x.author_id.chars().take(3).collect::<String>(), x.ts)).collect::<Vec<_>>()).ok());
+        }
         check_bounds(rep, &format!("step {si} fill"), &filled, &content, false);
         let new_attrs = match upd {
             Err(e) => {
@@ -251,6 +288,13 @@ fn run_pipeline(rep: &mut CaseReport, specs: &[LineSpec], crlf: bool, final_newl
                 );
                 continue;
             }
+            if marker_dependent.contains(&key_of(line)) {
+                rep.violate(
+                    "C16:deletion-marker-dropped-by-next-pass",
+                    format!("step {si}: line {n} {line:?} was held by a zero-length marker that an earlier pass dropped; expected {:?}, reported {:?}", e.last, obs),
+                );
+                continue;
+            }
             rep.judged_strict += 1;
             rep.violate(
                 match (e.last, obs) {
@@ -299,6 +343,13 @@ fn run_pipeline(rep: &mut CaseReport, specs: &[LineSpec], crlf: bool, final_newl
                             .filter(|l| before.get(l) != after.get(l))
                             .all(|l| marker_lines.contains(l))
                     };
+                    if only_marker_lines {
+                        for l in before.keys().chain(after.keys()).filter(|l| before.get(l) != after.get(l)) {
+                            if let Some(t) = fs.lines.get(*l as usize - 1) {
+                                marker_dependent.insert(key_of(t));
+                            }
+                        }
+                    }
                     rep.violate(
                         if only_marker_lines {
                             // zero-length deletion markers are dropped by the next pass (F14/F25)
@@ -397,6 +448,9 @@ fn run_arbitrary(rep: &mut CaseReport, old: &str, new: &str, priors: &[PriorSpec
                 match u {
                     Err(e) => rep.violate("C16:update-returned-error", format!("{name}: {e}")),
                     Ok(a) => {
+                        if std::env::var("GAIV_C16_DUMP").is_ok() {
+                            eprintln!("{name}: {:?}", a.iter().map(|x| (x.start, x.end, x.author_id.clone())).collect::<Vec<_>>());
+                        }
                         check_bounds(rep, name, &a, new, splits);
                         match guarded(|| {
                             let l = attributions_to_line_attributions(&a, new);
